@@ -59,19 +59,24 @@ Definition grid_ok (hmax rmax : Z) : bool :=
      eq3 (thumb_prim h pos (r - h) h r) (thumb_soft h pos (r - h) h r))
      (zrange 0 (r - h))) (zrange (h + 1) rmax)) (zrange 1 hmax).
 
+Lemma grid_ok_spec hmax rmax : grid_ok hmax rmax = true ->
+  forall h r pos, 1 <= h <= hmax -> h < r <= rmax -> 0 <= pos <= r - h ->
+  thumb_prim h pos (r - h) h r = thumb_soft h pos (r - h) h r.
+Proof.
+  intros G h r pos Hh Hr Hp. unfold grid_ok in G.
+  rewrite forallb_forall in G. specialize (G h (In_zrange _ _ _ Hh)).
+  rewrite forallb_forall in G. specialize (G r (In_zrange (h + 1) rmax r ltac:(lia))).
+  rewrite forallb_forall in G. specialize (G pos (In_zrange _ _ _ Hp)).
+  apply eq3_true. exact G.
+Qed.
+
 Lemma grid_10_30 : grid_ok 10 30 = true.
-Proof. vm_compute. reflexivity. Qed.
+Proof. vm_cast_no_check (eq_refl true). Qed.
 
 Lemma thumb_prim_agrees h r pos :
   1 <= h <= 10 -> h < r <= 30 -> 0 <= pos <= r - h ->
   thumb_prim h pos (r - h) h r = thumb_soft h pos (r - h) h r.
-Proof.
-  intros Hh Hr Hp. pose proof grid_10_30 as G. unfold grid_ok in G.
-  rewrite forallb_forall in G. specialize (G h (In_zrange _ _ _ Hh)).
-  rewrite forallb_forall in G. specialize (G r (In_zrange (h + 1) 30 r ltac:(lia))).
-  rewrite forallb_forall in G. specialize (G pos (In_zrange _ _ _ Hp)).
-  apply eq3_true. exact G.
-Qed.
+Proof. exact (grid_ok_spec 10 30 grid_10_30 h r pos). Qed.
 
 (* the two rounding operations themselves: int/int division and float*int multiplication *)
 Definition div_ok (n : Z) : bool :=
@@ -83,30 +88,39 @@ Definition mul_ok (n m : Z) : bool :=
      Qeq_bool (pf_to_Q (PrimFloat.mul (PrimFloat.div (pf_of_Z a) (pf_of_Z b)) (pf_of_Z k)))
               (f_mul (f_div_int_int a b) (f_of_int k))) (zrange 0 m)) (zrange 1 n)) (zrange 0 n).
 
-Lemma div_100 : div_ok 100 = true.
-Proof. vm_compute. reflexivity. Qed.
-
-Lemma mul_30_20 : mul_ok 30 20 = true.
-Proof. vm_compute. reflexivity. Qed.
-
-Lemma prim_div_is_rn a b :
-  0 <= a <= 100 -> 1 <= b <= 100 ->
+Lemma div_ok_spec n : div_ok n = true -> forall a b, 0 <= a <= n -> 1 <= b <= n ->
   (pf_to_Q (PrimFloat.div (pf_of_Z a) (pf_of_Z b)) == f_div_int_int a b)%Q.
 Proof.
-  intros Ha Hb. pose proof div_100 as G. unfold div_ok in G.
+  intros G a b Ha Hb. unfold div_ok in G.
   rewrite forallb_forall in G. specialize (G a (In_zrange _ _ _ Ha)).
   rewrite forallb_forall in G. specialize (G b (In_zrange _ _ _ Hb)).
   apply Qeq_bool_iff. exact G.
 Qed.
 
-Lemma prim_mul_is_rn a b k :
-  0 <= a <= 30 -> 1 <= b <= 30 -> 0 <= k <= 20 ->
+Lemma mul_ok_spec n m : mul_ok n m = true -> forall a b k, 0 <= a <= n -> 1 <= b <= n -> 0 <= k <= m ->
   (pf_to_Q (PrimFloat.mul (PrimFloat.div (pf_of_Z a) (pf_of_Z b)) (pf_of_Z k))
    == f_mul (f_div_int_int a b) (f_of_int k))%Q.
 Proof.
-  intros Ha Hb Hk. pose proof mul_30_20 as G. unfold mul_ok in G.
+  intros G a b k Ha Hb Hk. unfold mul_ok in G.
   rewrite forallb_forall in G. specialize (G a (In_zrange _ _ _ Ha)).
   rewrite forallb_forall in G. specialize (G b (In_zrange _ _ _ Hb)).
   rewrite forallb_forall in G. specialize (G k (In_zrange _ _ _ Hk)).
   apply Qeq_bool_iff. exact G.
 Qed.
+
+Lemma div_100 : div_ok 100 = true.
+Proof. vm_cast_no_check (eq_refl true). Qed.
+
+Lemma mul_20_12 : mul_ok 20 12 = true.
+Proof. vm_cast_no_check (eq_refl true). Qed.
+
+Lemma prim_div_is_rn a b :
+  0 <= a <= 100 -> 1 <= b <= 100 ->
+  (pf_to_Q (PrimFloat.div (pf_of_Z a) (pf_of_Z b)) == f_div_int_int a b)%Q.
+Proof. exact (div_ok_spec 100 div_100 a b). Qed.
+
+Lemma prim_mul_is_rn a b k :
+  0 <= a <= 20 -> 1 <= b <= 20 -> 0 <= k <= 12 ->
+  (pf_to_Q (PrimFloat.mul (PrimFloat.div (pf_of_Z a) (pf_of_Z b)) (pf_of_Z k))
+   == f_mul (f_div_int_int a b) (f_of_int k))%Q.
+Proof. exact (mul_ok_spec 20 12 mul_20_12 a b k). Qed.
